@@ -138,7 +138,7 @@ reg("C13", "proof", ["contracts.contraction_algebra:ContractionAlgebra", "contra
                        "symbolic Boys function for the Coulomb modules"])
 
 reg("C11", "proof", ["contracts.symmetry:AssemblyPermutation", "contracts.symmetry:BlockOrientation", "contracts.coulomb:ERISymmetry",
-    "contracts.coulomb:PointChargeInline", "contracts.assembly:TwoSymm", "contracts.assembly:TwoSymmHerm", "contracts.assembly:FourSymm"],
+    "contracts.coulomb:PointChargeInline", "contracts.assembly:TwoSymm@quick", "contracts.assembly:TwoSymmHerm", "contracts.assembly:FourSymm@quick"],
     ["Base{One,TwoIndexSymmetric,FourIndexSymmetric}.construct_array_* on permuted shell lists",
      "construct_array_contraction of every two-index class in both orientations", "ElectronRepulsionIntegral.construct_array_contraction in eight orientations"],
     note="lemma over the assembly contracts (C09) and the block contracts (C01-C04, C07, C08), re-discharged here on the current tree",
@@ -163,7 +163,7 @@ reg("C16", "other", ["contracts.deriv:GeneralKernel", "contracts.deriv:EvalBlock
          "(Gaussian moment formula, trusted). The statement itself ('integrating numerically reproduces ...') is then run literally as a BOUNDED "
          "stand-in on the float code (uniform-grid trapezoid, exponents 0.3..3).",
     extra_assumptions=["numerical quadrature is a bounded stand-in (seeded random bases), never counted as proved"])
-reg("C17", "other", ["contracts.overlap:OverlapBlock", "contracts.diffop:KineticBlock", "contracts.coulomb:OneElecKernel", "contracts.coulomb:TwoElecKernel",
+reg("C17", "other", ["contracts.overlap:OverlapBlock", "contracts.diffop:KineticBlock", "contracts.coulomb:OneElecKernel@quick", "contracts.coulomb:TwoElecKernel@quick",
     "contracts.numeric:GramBounds"],
     ["corollary of C01-C04 (the arrays are Gram matrices of the basis functions under positive (semi-)definite forms)"],
     note="in real arithmetic the bounds are mathematical consequences of the exactness contracts C01-C04 (re-discharged here at the quick scale): the "
